@@ -50,6 +50,22 @@ void parallel_range_default_progress_fn(IntT start_value, IntT end_value, IntT c
       elapsed_str.c_str(), remaining_str.c_str());
 }
 
+// Claims the next count values of the range for the calling thread and returns
+// true, or returns false if the range is exhausted (or the job was ended early).
+// Unlike a bare fetch_add, this never moves the cursor past end_value, so the
+// cursor cannot wrap around (and hand out values a second time, or values
+// outside the range) when the range ends near the maximum value of IntT.
+template <typename IntT>
+bool parallel_range_claim(std::atomic<IntT>& current_value, IntT end_value, IntT count, IntT& claimed) {
+  claimed = current_value.load();
+  while (claimed < end_value) {
+    if (current_value.compare_exchange_weak(claimed, claimed + count)) {
+      return true;
+    }
+  }
+  return false;
+}
+
 template <typename IntT>
 void parallel_range_thread_fn(
     std::function<bool(IntT, size_t thread_num)>& fn,
@@ -58,7 +74,7 @@ void parallel_range_thread_fn(
     IntT end_value,
     size_t thread_num) {
   IntT v;
-  while ((v = current_value.fetch_add(1)) < end_value) {
+  while (parallel_range_claim<IntT>(current_value, end_value, 1, v)) {
     if (fn(v, thread_num)) {
       result_value = v;
       current_value = end_value;
@@ -123,7 +139,7 @@ void parallel_range_blocks_thread_fn(
     IntT block_size,
     size_t thread_num) {
   IntT block_start;
-  while ((block_start = current_value.fetch_add(block_size)) < end_value) {
+  while (parallel_range_claim<IntT>(current_value, end_value, block_size, block_start)) {
     IntT block_end = block_start + block_size;
     for (IntT z = block_start; z < block_end; z++) {
       if (fn(z, thread_num)) {
